@@ -29,6 +29,7 @@ type Obligation struct {
 	Model  string
 	Dead   bool
 	Except string // known finding: Bool term describing the recorded failing inputs
+	Clause *Clause // post obligations: the ensures clause
 	Stage  int    // solving stage that decided the obligation (1, 2: sliced; 3: full abstract; 4: full exact)
 }
 
@@ -51,6 +52,7 @@ type Exec struct {
 	root         *ssa.Function
 	rootCtr      *Contract
 	logicals     map[string]*Val
+	postClause   *Clause
 	cellN        int
 	cur          *State
 	oldState     *State
@@ -162,7 +164,7 @@ func (x *Exec) oblige(st *State, kind, label, what string, goal string, pos toke
 		if len(parts) > 1 {
 			n = fmt.Sprintf("%s.%d", name, i+1)
 		}
-		x.obls = append(x.obls, &Obligation{Name: n, Kind: kind, Label: label, Func: fnKey(x.root), Pos: x.sc.pos(), Goal: implies(st.pc, g), Src: x.srcPos(pos)})
+		x.obls = append(x.obls, &Obligation{Name: n, Kind: kind, Label: label, Func: fnKey(x.root), Pos: x.sc.pos(), Goal: implies(st.pc, g), Src: x.srcPos(pos), Clause: x.postClause})
 	}
 }
 
@@ -988,7 +990,11 @@ func (x *Exec) checkPost(f *frame, st *State, vals []*Val, pos token.Pos) {
 		x.clauseFn = f.fn
 		args := x.clauseArgs(f.ctr, cl, f.args, x.bindingValues(st, f.fn, f.bindings), vals, nil)
 		g := x.evalClauseFn(cl.Fn, args, st, f.old)
+		if len(x.stack) <= 1 {
+			x.postClause = cl
+		}
 		x.oblige(st, "post", cl.Label, clauseName(cl), g, pos)
+		x.postClause = nil
 	}
 }
 
